@@ -34,6 +34,8 @@ ASSUME \A p \in ProgSet :
                              items |-> [q \in 1..Len(Prog(p)) |->
                                           [name |-> ItemName(Prog(p)[q]), kind |-> ItemKind(Prog(p)[q]),
                                            b |-> IF Prog(p)[q].k = "def" THEN Prog(p)[q].b ELSE 0]],
+                             spellings |-> [q \in DOMAIN Spellings |-> [name |-> Spellings[q], cwd |-> SpellingOf(Spellings[q]).cwd,
+                                                                         arg |-> SpellingOf(Spellings[q]).arg]],
                              prints |-> Expected[p].prints, status |-> Expected[p].status,
                              nplaces |-> Cardinality({pm \in PlacementIds : pm[1] = p})])>>)
 
@@ -59,7 +61,7 @@ EmitRec(c) ==
                    form |-> c.twins[q].form, itemkind |-> c.twins[q].itemkind, lines |-> c.twins[q].lines,
                    ns |-> JoinDot(c.twins[q].ns, 1), name |-> c.twins[q].name]],
      load |-> c.load, layout |-> c.layout, cyc |-> c.cyc, decoy |-> c.decoy, cycle |-> c.cycle, diamond |-> c.diamond,
-     chain |-> c.chain, chaincycle |-> c.chaincycle]
+     chain |-> c.chain, chaincycle |-> c.chaincycle, mixed |-> c.mixed, mainback |-> c.mainback, disk |-> c.disk]
 
 Emit == /\ pc = "made"
         /\ pc' = "done"
